@@ -52,6 +52,16 @@ NA = {
 
 # id -> (category, text, note, technique, design_ref)
 CLAIMED = {
+ "C19": ("exploration",
+         "A payload is written to a scratch file through 1..10 seeded output operations (put_char, put_code, put_byte, write, format ~s/~a, nl, flush_output; 20 characters incl. newline and 2/3/4-byte ones, all byte values in binary mode, 1 case in 12 straddling the reader's 8 KiB refill) and read back through 3..25 seeded operations (get_char, peek_char, get_code, peek_code, get_byte, peek_byte, get_n_chars, get_line_to_chars, at_end_of_stream, position and end_of_stream properties, position save and set_stream_position) under each eof_action. The read history runs twice: with full reads and with short reads injected below InputFileStream::read from a seeded schedule (max chunk 1..4096 bytes) - the legal behaviour of read(2) the tests never produce. Oracle: the file holds exactly the bytes written; a byte-buffer model with a cursor gives every result (peek == next get and consumes nothing; at_end_of_stream <=> next get is end-of-file; P == bytes consumed, L == newlines consumed; a restored position replays the same reads; eof_action error/eof_code honoured, reset: no error); the two read runs agree item by item.",
+         "File streams (text and binary) only; the in-memory user_input/user_output streams of the embedding API are not driven by this check. For end_of_stream(E) only E = past <=> an end-of-file was returned and E = at => no data left are asserted. get_n_chars/get_line_to_chars on a stream already past its end are not compared (not ISO predicates).",
+         "deterministic simulation with fault injection: seeded write/read histories over a real file with seeded short reads below the stream; byte-buffer reference model + full-read/short-read differential",
+         "DESIGN.md §3 C19"),
+ "C47": ("exploration",
+         "File contents are laid out as runs of 1/2/3/4-byte characters sized k*4096 characters +- 8 (the lazy step of library(pio)) or 8192 bytes +- 6 (the reader's refill), or small, with a marker character sprinkled at run borders; a grammar is drawn from a family of eight (consume everything, prefix then ..., count, suffix, every position of a character by backtracking, member, throw after n characters, seq(A),seq(A)). It runs three times: with phrase/2 over the full character list, with phrase_from_file/3, and with phrase_from_file/3 while short reads are injected below the stream from a seeded schedule (max chunk 1..8191 bytes). Oracle (differential): the three runs give the same solutions, failure or exception.",
+         "The grammars are not modelled: the oracle is the same grammar over the same text delivered three ways. A stream left open after phrase_from_file/3 is counted as a probe only.",
+         "deterministic simulation with fault injection: seeded file layouts around the lazy-step and buffer boundaries, seeded short reads below the stream; phrase/2-over-full-text differential",
+         "DESIGN.md §3 C47"),
  "C26": ("exploration",
          "A case fixes a multiset of 2..7 operations over three variables and acyclic terms of depth <= 2 (dif(S,T); S = T as binding, aliasing or structure unification; freeze(V, mark); when(Cond, mark) with nonvar/ground conditions joined by , and ;). The scheduler draws 5..8 orders of the multiset (seeded permutations plus constraints-first and bindings-first). Each order runs as one conjunction with a position mark after every operation, followed by 2..5 probes (further bindings tried inside \\+ \\+, their wake-ups carried out). Oracle: a reference constraint store (mgu with occurs check; a dif pair is violated when identical, entailed when not unifiable, pending otherwise; monotone freeze/when conditions). Per order: success/failure, final bindings, the segment of the log in which every suspended goal wakes (before the position mark of the enabling operation: 'as soon as') and that it wakes once, and outcome plus wake-ups of every probe (the remaining constraints, semantically); therefore all orders agree with each other. Marks are backtrackable, so wake-ups inside undone bindings (\\=, dif's unifiability test) leave no trace.",
          "No fault is injected: the order of posts and bindings is the searched space (said plainly in DESIGN.md). Cases needing the occurs check are skipped; wake-ups of failing conjunctions/probes are not compared. Cases with a when/2 condition over >= 2 variables are keyed apart (recorded defect: such goals run once per variable).",
